@@ -218,7 +218,7 @@ func sel(c bool, x, y int) int {
 def main():
     out, tier = sys.argv[1], sys.argv[2]
     seed = int(os.environ.get('VERIF_SEED', '1'))
-    n = 48 if tier == 'quick' else 400
+    n = 48 if tier == 'quick' else 200
     rnd = random.Random(7000 + seed)
     os.makedirs(out, exist_ok=True)
     src, meta = [HDR], {}
